@@ -13,14 +13,15 @@ Lemma has_key_alookup {A} k (l : list (string * A)) :
   has_key k l = false <-> alookup k l = None.
 Proof. unfold has_key. destruct (alookup k l); split; intro H; congruence. Qed.
 
-Lemma gather_node_ifaces st n st' :
-  gather_node st n = Ok st' ->
+Lemma gather_node_ifaces b st n st' :
+  gather_node_gen b st n = Ok st' ->
   match n with
   | NIface i => st_ifaces st' = ipair i :: st_ifaces st /\ alookup (i_name i) (st_ifaces st) = None
   | _ => st_ifaces st' = st_ifaces st
   end.
 Proof.
-  destruct n as [p|c|s|i]; cbn [gather_node]; intro H.
+  unfold gather_node_gen. destruct (b && cross_kind st n); [discriminate|].
+  destruct n as [p|c|s|i]; cbn [gather_node0]; intro H.
   - inversion H; reflexivity.
   - destruct (mem_str _ _); inversion H; reflexivity.
   - destruct (has_key _ _); inversion H; reflexivity.
@@ -29,26 +30,26 @@ Proof.
     inversion H; subst; cbn. split; [reflexivity | now apply has_key_alookup].
 Qed.
 
-Lemma gather_nodes_ifaces ns : forall st st',
-  gather_nodes st ns = Ok st' ->
+Lemma gather_nodes_ifaces b ns : forall st st',
+  gather_nodes_gen b st ns = Ok st' ->
   st_ifaces st' = rev (map ipair (node_ifaces ns)) ++ st_ifaces st.
 Proof.
   induction ns as [|n ns IH]; intros st st' H; cbn in H.
   - inversion H; reflexivity.
-  - destruct (gather_node st n) as [st1| | |] eqn:E; cbn in H; try discriminate.
-    rewrite (IH _ _ H). pose proof (gather_node_ifaces _ _ _ E) as G.
+  - destruct (gather_node_gen b st n) as [st1| | |] eqn:E; cbn in H; try discriminate.
+    rewrite (IH _ _ H). pose proof (gather_node_ifaces _ _ _ _ E) as G.
     destruct n as [p|c|s|i]; cbn [node_ifaces flat_map app map rev]; try (now rewrite G).
     destruct G as [G _]. rewrite G. cbn. now rewrite <- app_assoc.
 Qed.
 
 (* a name already present can not be declared again *)
-Lemma gather_nodes_fresh ns : forall st st' k,
-  gather_nodes st ns = Ok st' -> alookup k (st_ifaces st) <> None ->
+Lemma gather_nodes_fresh b ns : forall st st' k,
+  gather_nodes_gen b st ns = Ok st' -> alookup k (st_ifaces st) <> None ->
   find (fun i => String.eqb k (i_name i)) (node_ifaces ns) = None.
 Proof.
   induction ns as [|n ns IH]; intros st st' k H Hk; cbn in H; [reflexivity|].
-  destruct (gather_node st n) as [st1| | |] eqn:E; cbn in H; try discriminate.
-  pose proof (gather_node_ifaces _ _ _ E) as G.
+  destruct (gather_node_gen b st n) as [st1| | |] eqn:E; cbn in H; try discriminate.
+  pose proof (gather_node_ifaces _ _ _ _ E) as G.
   destruct n as [p|c|s|i]; cbn [node_ifaces flat_map app find];
     try (apply (IH _ _ _ H); now rewrite G).
   destruct G as [G1 G2].
@@ -57,8 +58,8 @@ Proof.
   - apply (IH _ _ _ H). rewrite G1. cbn. now rewrite EK.
 Qed.
 
-Lemma gather_nodes_lookup ns : forall st st' k,
-  gather_nodes st ns = Ok st' ->
+Lemma gather_nodes_lookup b ns : forall st st' k,
+  gather_nodes_gen b st ns = Ok st' ->
   alookup k (st_ifaces st') =
   match find (fun i => String.eqb k (i_name i)) (node_ifaces ns) with
   | Some i => Some i
@@ -67,12 +68,12 @@ Lemma gather_nodes_lookup ns : forall st st' k,
 Proof.
   induction ns as [|n ns IH]; intros st st' k H; cbn in H.
   - inversion H; reflexivity.
-  - destruct (gather_node st n) as [st1| | |] eqn:E; cbn in H; try discriminate.
-    rewrite (IH _ _ k H). pose proof (gather_node_ifaces _ _ _ E) as G.
+  - destruct (gather_node_gen b st n) as [st1| | |] eqn:E; cbn in H; try discriminate.
+    rewrite (IH _ _ k H). pose proof (gather_node_ifaces _ _ _ _ E) as G.
     destruct n as [p|c|s|i]; cbn [node_ifaces flat_map app find]; try (now rewrite G).
     destruct G as [G1 G2].
     destruct (String.eqb k (i_name i)) eqn:EK.
-    + rewrite (gather_nodes_fresh _ _ _ k H).
+    + rewrite (gather_nodes_fresh b _ _ _ k H).
       * rewrite G1. cbn. now rewrite EK.
       * rewrite G1. cbn. rewrite EK. discriminate.
     + rewrite G1. cbn. now rewrite EK.
@@ -85,20 +86,20 @@ Proof. induction l1 as [|a l1 IH]; cbn; [reflexivity|]. destruct (p a); [reflexi
 Lemma ast_ifaces_node_ifaces a : ast_ifaces a = node_ifaces (a_nodes a).
 Proof. reflexivity. Qed.
 
-Lemma gather_files_fresh fs : forall st st' k,
-  gather_files st fs = Ok st' -> alookup k (st_ifaces st) <> None ->
+Lemma gather_files_fresh b fs : forall st st' k,
+  gather_files_gen b st fs = Ok st' -> alookup k (st_ifaces st) <> None ->
   find (fun i => String.eqb k (i_name i)) (all_ifaces fs) = None.
 Proof.
   induction fs as [|a fs IH]; intros st st' k H Hk; cbn in H; [reflexivity|].
-  destruct (gather_nodes st (a_nodes a)) as [st1| | |] eqn:E; cbn in H; try discriminate.
+  destruct (gather_nodes_gen b st (a_nodes a)) as [st1| | |] eqn:E; cbn in H; try discriminate.
   unfold all_ifaces. cbn [flat_map]. rewrite find_app, ast_ifaces_node_ifaces.
-  rewrite (gather_nodes_fresh _ _ _ k E Hk).
-  apply (IH _ _ _ H). rewrite (gather_nodes_lookup _ _ _ k E).
-  now rewrite (gather_nodes_fresh _ _ _ k E Hk).
+  rewrite (gather_nodes_fresh b _ _ _ k E Hk).
+  apply (IH _ _ _ H). rewrite (gather_nodes_lookup b _ _ _ k E).
+  now rewrite (gather_nodes_fresh b _ _ _ k E Hk).
 Qed.
 
-Lemma gather_files_lookup fs : forall st st' k,
-  gather_files st fs = Ok st' ->
+Lemma gather_files_lookup b fs : forall st st' k,
+  gather_files_gen b st fs = Ok st' ->
   alookup k (st_ifaces st') =
   match find (fun i => String.eqb k (i_name i)) (all_ifaces fs) with
   | Some i => Some i
@@ -107,24 +108,24 @@ Lemma gather_files_lookup fs : forall st st' k,
 Proof.
   induction fs as [|a fs IH]; intros st st' k H; cbn in H.
   - inversion H; reflexivity.
-  - destruct (gather_nodes st (a_nodes a)) as [st1| | |] eqn:E; cbn in H; try discriminate.
+  - destruct (gather_nodes_gen b st (a_nodes a)) as [st1| | |] eqn:E; cbn in H; try discriminate.
     rewrite (IH _ _ k H). unfold all_ifaces. cbn [flat_map]. fold (all_ifaces fs).
     rewrite find_app, ast_ifaces_node_ifaces.
-    rewrite (gather_nodes_lookup _ _ _ k E).
+    rewrite (gather_nodes_lookup b _ _ _ k E).
     destruct (find (fun i => String.eqb k (i_name i)) (node_ifaces (a_nodes a))) as [i|] eqn:F.
-    + rewrite (gather_files_fresh _ _ _ k H); [reflexivity|].
-      rewrite (gather_nodes_lookup _ _ _ k E), F. discriminate.
+    + rewrite (gather_files_fresh b _ _ _ k H); [reflexivity|].
+      rewrite (gather_nodes_lookup b _ _ _ k E), F. discriminate.
     + reflexivity.
 Qed.
 
-Lemma gather_files_length fs : forall st st',
-  gather_files st fs = Ok st' ->
+Lemma gather_files_length b fs : forall st st',
+  gather_files_gen b st fs = Ok st' ->
   List.length (st_ifaces st') = (List.length (all_ifaces fs) + List.length (st_ifaces st))%nat.
 Proof.
   induction fs as [|a fs IH]; intros st st' H; cbn in H.
   - inversion H; reflexivity.
-  - destruct (gather_nodes st (a_nodes a)) as [st1| | |] eqn:E; cbn in H; try discriminate.
-    rewrite (IH _ _ H), (gather_nodes_ifaces _ _ _ E).
+  - destruct (gather_nodes_gen b st (a_nodes a)) as [st1| | |] eqn:E; cbn in H; try discriminate.
+    rewrite (IH _ _ H), (gather_nodes_ifaces b _ _ _ E).
     unfold all_ifaces. cbn [flat_map]. rewrite ast_ifaces_node_ifaces.
     rewrite !app_length, rev_length, map_length. lia.
 Qed.
@@ -134,7 +135,7 @@ Theorem iface_lookup_is_find files st :
   forall k, iface_lookup st k = find_iface files k.
 Proof.
   intros H k. unfold iface_lookup, find_iface.
-  rewrite (gather_files_lookup _ _ _ k H). cbn.
+  rewrite (gather_files_lookup _ _ _ _ k H). cbn.
   destruct (find _ _); reflexivity.
 Qed.
 
@@ -142,5 +143,5 @@ Theorem iface_fuel_is_count files st :
   gather_files st_empty files = Ok st ->
   iface_fuel st = S (List.length (all_ifaces files)).
 Proof.
-  intro H. unfold iface_fuel. rewrite (gather_files_length _ _ _ H). cbn. now rewrite Nat.add_0_r.
+  intro H. unfold iface_fuel. rewrite (gather_files_length _ _ _ _ H). cbn. now rewrite Nat.add_0_r.
 Qed.
